@@ -1,6 +1,6 @@
 (* C04 -- validity flags, NaN costs and invalid disparities tell one coherent story.
    Statements only; proofs are in Proofs/FlagEnvP.v, CriteriaP.v, FlagStepsP.v, FlagPipelineP.v,
-   FlagWtaP.v.
+   FlagWtaP.v, FlagCostP.v (sad / ssd NaN pattern), FlagCostCensusZnccP.v (census / zncc / every measure).
 
    Reading guide.
    * [E : env] = the constants of pandora/constants.py and the list of EVERY write to a validity
@@ -13,7 +13,10 @@
      per-pixel interval grids.  [after_mc E L allnan r c] = the flag of pixel (r, c) after
      matching_cost_prepare + cv_masked (Model/Criteria.v), [allnan] the NaN pattern of the cost
      volume; [nan_pattern_ok] is C02's statement about it (all costs NaN iff no disparity of the
-     global interval is computable), the hypothesis under which the flags are read.
+     global interval is computable), the hypothesis under which the flags are read.  For the cost-volume
+     models of the four built-in measures it is a THEOREM (C04_nan_pattern_sad/_census/_zncc/_every_measure),
+     so C04_invalid_iff_allnan_<measure>, C04_invalid_iff_allnan_every_measure and
+     C04_after_mc_expected_every_measure carry no hypothesis on the NaN pattern.
    * [t_step E offpos border s d m] = what step [s] does to the flag [m] of one pixel when its
      numeric side takes decision [d] (any decision: stopped / refined, consistent / occlusion /
      mismatch / outside, fillable or not, regularised or not).
@@ -24,7 +27,7 @@ From Coq Require Import List Bool ZArith QArith.
 From Pandora Require Import Lib.Ext Model.Machine Spec.Language Model.Criteria Model.FlagSteps Model.FlagPipeline
   Model.Wta Spec.Validity Proofs.WtaP
   Model.MatchingCost Proofs.MatchingCostP
-  Proofs.FlagEnvP Proofs.CriteriaP Proofs.FlagStepsP Proofs.FlagPipelineP Proofs.FlagWtaP Proofs.FlagCostP Gen.Flags.
+  Proofs.FlagEnvP Proofs.CriteriaP Proofs.FlagStepsP Proofs.FlagPipelineP Proofs.FlagWtaP Proofs.FlagCostP Proofs.FlagCostCensusZnccP Gen.Flags.
 Import ListNotations.
 Open Scope Z_scope.
 
@@ -126,6 +129,84 @@ Theorem C04_invalid_iff_allnan_ssd : forall E inp dmin dmax r c,
   (Z.land (after_mc E (layout_of inp dmin dmax) (vol_allnan inp dmin dmax (ssd_volume inp dmin dmax)) r c) 195 <> 0
    <-> forall k, 0 <= k < nb_disp (i_s inp) dmin dmax -> ssd_volume inp dmin dmax r c k = None).
 Proof. exact invalid_iff_allnan_ssd. Qed.
+
+(* ---- the same for the CENSUS and ZNCC cost-volume models (C02_census_model_eq_spec, C02_zncc_model_eq_spec: NaN
+   exactly when not computable).  Any image size -- images SMALLER than the window included: there no window
+   fits, the code returns an all-NaN volume early, and mask_border covers the whole image, see
+   C04_smaller_than_window_all_invalid below --, odd window, subpix >= 1, masks, interval grids.
+   Census inherits the window restriction of C02_census_model_eq_spec: w * w <= 32, i.e. the windows 1, 3, 5 (the bit
+   string of the census transform must fit the uint32 popcount; Pandora accepts 3 and 5).  The zncc model keeps an
+   integer triple per cell, hence [vol_allnan_any] (same definition as [vol_allnan], cells of any type). *)
+Theorem C04_nan_pattern_census : forall inp dmin dmax r c, wf_cfg inp -> i_w inp * i_w inp <= 32 -> dmin <= dmax ->
+  0 <= r < i_ny inp -> 0 <= c < i_nx inp ->
+  nan_pattern_ok (layout_of inp dmin dmax) (i_gmin inp) (i_gmax inp)
+                 (vol_allnan inp dmin dmax (census_volume inp dmin dmax)) r c.
+Proof. exact nan_pattern_census. Qed.
+
+Theorem C04_nan_pattern_zncc : forall inp dmin dmax r c, wf_cfg inp -> dmin <= dmax ->
+  0 <= r < i_ny inp -> 0 <= c < i_nx inp ->
+  nan_pattern_ok (layout_of inp dmin dmax) (i_gmin inp) (i_gmax inp)
+                 (vol_allnan_any (i_s inp) dmin dmax (zncc_volume inp dmin dmax)) r c.
+Proof. exact nan_pattern_zncc. Qed.
+
+Theorem C04_invalid_iff_allnan_census : forall E inp dmin dmax r c,
+  wf_env E = true -> wf_cfg inp -> i_w inp * i_w inp <= 32 -> dmin <= dmax ->
+  0 <= r < i_ny inp -> 0 <= c < i_nx inp ->
+  (Z.land (after_mc E (layout_of inp dmin dmax) (vol_allnan inp dmin dmax (census_volume inp dmin dmax)) r c) 195 <> 0
+   <-> forall k, 0 <= k < nb_disp (i_s inp) dmin dmax -> census_volume inp dmin dmax r c k = None).
+Proof. exact invalid_iff_allnan_census. Qed.
+
+Theorem C04_invalid_iff_allnan_zncc : forall E inp dmin dmax r c,
+  wf_env E = true -> wf_cfg inp -> dmin <= dmax -> 0 <= r < i_ny inp -> 0 <= c < i_nx inp ->
+  (Z.land (after_mc E (layout_of inp dmin dmax) (vol_allnan_any (i_s inp) dmin dmax (zncc_volume inp dmin dmax)) r c) 195 <> 0
+   <-> forall k, 0 <= k < nb_disp (i_s inp) dmin dmax -> zncc_volume inp dmin dmax r c k = None).
+Proof. exact invalid_iff_allnan_zncc. Qed.
+
+(* ---- every built-in measure at once.  [measure_cell_nan m inp dmin dmax r c k] = "cell (r, c, k) of the cost
+   volume of measure m is NaN", [measure_allnan m ...] = "every cell of pixel (r, c) is", [measure_window_ok m inp]
+   = w * w <= 32 for census, nothing for sad / ssd / zncc. *)
+Theorem C04_measure_vocabulary : forall m inp dmin dmax r c k,
+  (measure_cell_nan m inp dmin dmax r c k = true <->
+   match m with
+   | Sad => sad_volume inp dmin dmax r c k = None
+   | Ssd => ssd_volume inp dmin dmax r c k = None
+   | Census => census_volume inp dmin dmax r c k = None
+   | Zncc => zncc_volume inp dmin dmax r c k = None
+   end)
+  /\ (measure_allnan m inp dmin dmax r c = true <->
+      forall k, 0 <= k < nb_disp (i_s inp) dmin dmax -> measure_cell_nan m inp dmin dmax r c k = true)
+  /\ (measure_window_ok m inp <-> (m = Census -> i_w inp * i_w inp <= 32)).
+Proof. exact measure_vocabulary. Qed.
+
+Theorem C04_nan_pattern_every_measure : forall m inp dmin dmax r c,
+  wf_cfg inp -> measure_window_ok m inp -> dmin <= dmax -> 0 <= r < i_ny inp -> 0 <= c < i_nx inp ->
+  nan_pattern_ok (layout_of inp dmin dmax) (i_gmin inp) (i_gmax inp) (measure_allnan m inp dmin dmax) r c.
+Proof. exact nan_pattern_every_measure. Qed.
+
+Theorem C04_invalid_iff_allnan_every_measure : forall m E inp dmin dmax r c,
+  wf_env E = true -> wf_cfg inp -> measure_window_ok m inp -> dmin <= dmax ->
+  0 <= r < i_ny inp -> 0 <= c < i_nx inp ->
+  (Z.land (after_mc E (layout_of inp dmin dmax) (measure_allnan m inp dmin dmax) r c) 195 <> 0
+   <-> forall k, 0 <= k < nb_disp (i_s inp) dmin dmax -> measure_cell_nan m inp dmin dmax r c k = true).
+Proof. exact invalid_iff_allnan_every_measure. Qed.
+
+(* not only the invalid bits: the whole flag after the matching cost is the documented one (1 on the border,
+   elsewhere exactly the bits 0, 1, 2, 6, 7 whose documented cause holds), for every measure, no hypothesis *)
+Theorem C04_after_mc_expected_every_measure : forall m E inp dmin dmax r c,
+  wf_env E = true -> wf_cfg inp -> measure_window_ok m inp -> dmin <= dmax ->
+  0 <= r < i_ny inp -> 0 <= c < i_nx inp ->
+  after_mc E (layout_of inp dmin dmax) (measure_allnan m inp dmin dmax) r c
+  = expected_flag (scene_of (layout_of inp dmin dmax) (i_gmin inp) (i_gmax inp)) r c.
+Proof. exact after_mc_expected_every_measure. Qed.
+
+(* an image smaller than the window (rows or columns < window_size): EVERY pixel carries exactly bit 0 (an
+   'invalid' flag) and every cost of every measure is NaN *)
+Theorem C04_smaller_than_window_all_invalid : forall m E inp dmin dmax r c,
+  wf_env E = true -> wf_cfg inp -> measure_window_ok m inp -> dmin <= dmax ->
+  Z.min (i_ny inp) (i_nx inp) < i_w inp -> 0 <= r < i_ny inp -> 0 <= c < i_nx inp ->
+  after_mc E (layout_of inp dmin dmax) (measure_allnan m inp dmin dmax) r c = 1
+  /\ forall k, 0 <= k < nb_disp (i_s inp) dmin dmax -> measure_cell_nan m inp dmin dmax r c k = true.
+Proof. exact smaller_than_window_all_invalid. Qed.
 
 (* ---- after winner-takes-all (model of C03): invalid_disparity iff all costs NaN, flags carried over.
    Hypothesis on invalid_disparity exactly as in the property: NaN ([None]) or a value that is not a
@@ -256,6 +337,37 @@ Proof.
   vm_compute. repeat split.
 Qed.
 
+(* Non-vacuity of the census / zncc / every-measure theorems.  (a) a 3 x 6 pair, window 3, subpix 2, interval
+   [-1, 1], a no-data pixel in the corner of the right mask: the hypotheses hold; on the centre row the flags read
+   1 4 0 0 4 1 for every measure, pixel 1 keeps one computable cost (sample 4: d = 1) although its candidates at
+   d < 0 leave the image and those at d = 0, 1/2 have the no-data pixel in their window.  (b) the same pair cut to 2 rows (smaller than
+   the window): every flag is 1 and every cost of every measure is NaN. *)
+Definition ex_img2 (l : list (list Z)) : Z -> Z -> Z :=
+  fun r c => nth (Z.to_nat c) (nth (Z.to_nat r) l []) 0.
+Definition ex_inp_cz (ny : Z) : mc_input :=
+  MkIn ny 6 3 2 (ex_img2 [[5;2;3;4;1;7];[2;4;6;1;9;3];[1;7;2;3;5;8]]) (ex_img2 [[1;3;2;4;6;2];[2;5;6;7;9;1];[0;1;2;2;5;4]])
+       None (Some (ex_img2 [[1;0;0;0;0;0];[0;0;0;0;0;0];[0;0;0;0;0;0]])) 0 1
+       (fun _ _ => -1) (fun _ _ => 1).
+Example C04_example_every_measure :
+  (wf_cfg (ex_inp_cz 3) /\ forall m, measure_window_ok m (ex_inp_cz 3))
+  /\ (forall m, In m [Sad; Ssd; Census; Zncc] ->
+        map (after_mc E0 (layout_of (ex_inp_cz 3) (-1) 1) (measure_allnan m (ex_inp_cz 3) (-1) 1) 1) [0; 1; 2; 3; 4; 5]
+        = [1; 4; 0; 0; 4; 1]
+        /\ map (measure_cell_nan m (ex_inp_cz 3) (-1) 1 1 1) [0; 1; 2; 3; 4] = [true; true; true; true; false])
+  /\ Z.min (i_ny (ex_inp_cz 2)) (i_nx (ex_inp_cz 2)) < i_w (ex_inp_cz 2)
+  /\ (forall m, In m [Sad; Ssd; Census; Zncc] ->
+        map (fun r => map (after_mc E0 (layout_of (ex_inp_cz 2) (-1) 1) (measure_allnan m (ex_inp_cz 2) (-1) 1) r)
+                          [0; 1; 2; 3; 4; 5]) [0; 1]
+        = [[1; 1; 1; 1; 1; 1]; [1; 1; 1; 1; 1; 1]]
+        /\ map (fun r => map (measure_allnan m (ex_inp_cz 2) (-1) 1 r) [0; 1; 2; 3; 4; 5]) [0; 1]
+           = [[true; true; true; true; true; true]; [true; true; true; true; true; true]]).
+Proof.
+  split; [split; [repeat split | intros []; cbn; try exact I; discriminate]|].
+  split; [intros m [<-|[<-|[<-|[<-|[]]]]]; vm_compute; split; reflexivity|].
+  split; [reflexivity|].
+  intros m [<-|[<-|[<-|[<-|[]]]]]; vm_compute; split; reflexivity.
+Qed.
+
 Print Assumptions C04_flags_wf.
 Print Assumptions C04_info_bits_idempotent.
 Print Assumptions C04_guard_holds_for_every_pipeline.
@@ -272,6 +384,15 @@ Print Assumptions C04_invalid_iff_allnan.
 Print Assumptions C04_nan_pattern_sad.
 Print Assumptions C04_invalid_iff_allnan_sad.
 Print Assumptions C04_invalid_iff_allnan_ssd.
+Print Assumptions C04_nan_pattern_census.
+Print Assumptions C04_nan_pattern_zncc.
+Print Assumptions C04_invalid_iff_allnan_census.
+Print Assumptions C04_invalid_iff_allnan_zncc.
+Print Assumptions C04_measure_vocabulary.
+Print Assumptions C04_nan_pattern_every_measure.
+Print Assumptions C04_invalid_iff_allnan_every_measure.
+Print Assumptions C04_after_mc_expected_every_measure.
+Print Assumptions C04_smaller_than_window_all_invalid.
 Print Assumptions C04_allnan_iff_invalid_disp.
 Print Assumptions C04_inv_meaning.
 Print Assumptions C04_step_touches_own_bits.
